@@ -3,7 +3,7 @@
 use super::common::*;
 use super::{Property, Tier, Verdict};
 use crate::entropy::Rng;
-use crate::exec::{Op, RunLog, Scenario};
+use crate::exec::{ForgeFrom, ForgeTid, Op, RunLog, Scenario};
 use crate::krpc::{self, hex, Val};
 use crate::log::{ApiEv, Ev};
 use crate::stubs::{Answer, NodeRef, NodesMode, StubCfg};
@@ -161,6 +161,39 @@ impl Property for C12 {
             };
             sc.at(t, Op::Raw { from, to: node, bytes });
         }
+        // wrong-length ids derived from ids the node really uses (observed on the wire): a real id
+        // with bytes appended, or cut short; from the queried address or from elsewhere
+        let searches: Vec<(u64, [u8; 20])> = sc.steps.iter().filter_map(|s| match (&s.when, &s.op) {
+            (crate::exec::When::At(t), Op::Search { ih, .. }) => Some((*t, *ih)),
+            _ => None,
+        }).collect();
+        for _ in 0..rng.range(0, 12) {
+            k += 1;
+            let base = if !searches.is_empty() && rng.chance(2, 3) {
+                let (t, ih) = *rng.pick(&searches);
+                (t + rng.range(0, 2_500), ForgeTid::LatestGetPeers { ih })
+            } else {
+                (t_start + rng.range(100, horizon), ForgeTid::LatestFindNode)
+            };
+            let (keep, append) = match rng.below(4) {
+                0 => (8, rng.bytes_in(1, 2)),
+                1 => (8, rng.bytes_in(3, 24)),
+                2 => (rng.range(5, 7) as usize, vec![]),
+                _ => (rng.range(5, 7) as usize, rng.bytes_in(2, 9).into_iter().chain([0u8]).collect()),
+            };
+            // never produce a valid 8-byte id by accident
+            let append = if keep + append.len() == 8 { [append, vec![7]].concat() } else { append };
+            let named: Vec<([u8; 20], SocketAddr)> = (0..rng.range(0, 4)).map(|j| { k += 1; (adv_id(k), addr(v6, 3, 1000 + k + j as u32, 6881)) }).collect();
+            sc.at(base.0, Op::Forge {
+                node: 0,
+                tid: ForgeTid::Derived { base: Box::new(base.1), keep, append },
+                from: if rng.chance(1, 2) { ForgeFrom::Queried } else { ForgeFrom::Addr(addr(v6, 3, rng.range(1, 8) as u32, 6000)) },
+                responder_id: adv_id(k),
+                values: vec![addr(v6, 3, 50_000 + k, 1)],
+                token: Some(rng.bytes(20)),
+                nodes: named,
+            });
+        }
         let period = *rng.pick(&[700u64, 1_900, 4_300]);
         sc.at(t_start, Op::SampleEvery { node: 0, period_ms: period, count: ((horizon + 10_000) / period) as u32, table: true });
         sc.end_ms = t_start + horizon + 30_000;
@@ -215,7 +248,7 @@ impl Property for C12 {
                             if is_adv_id(&s.id) {
                                 fire(&mut v, "unsolicited_party_admitted", *t, format!("table lists {} at {} (standing {}), an identity that only ever appeared in datagrams the node never asked for", hex(&s.id), s.addr, s.status));
                             }
-                            if adv_addrs.contains(&s.addr) {
+                            if adv_addrs.contains(&s.addr) || addr_class(&s.addr) == 3 {
                                 fire(&mut v, "unsolicited_sender_admitted", *t, format!("table lists the address {} of a party that only sent unsolicited datagrams", s.addr));
                             }
                             if s.id == own {
@@ -235,7 +268,7 @@ impl Property for C12 {
                     }
                     if let Some((g, q)) = contacts {
                         for a in g.iter().chain(q.iter()) {
-                            if adv_addrs.contains(a) {
+                            if adv_addrs.contains(a) || addr_class(a) == 3 {
                                 fire(&mut v, "unsolicited_sender_admitted", *t, format!("load_contacts lists {a}, a party that only sent unsolicited datagrams"));
                             }
                             if routers.contains(a) {
@@ -261,6 +294,9 @@ impl Property for C12 {
             }
             v.hit("search_ran");
         }
+        if run.stats.get("fault_forge").copied().unwrap_or(0) > 0 {
+            v.hit("wrong_length_id_derived_from_real_one");
+        }
         let adv = run.stats.get("sent_raw").copied().unwrap_or(0);
         v.hit_n("unsolicited_datagrams", adv);
         if saw_hearsay {
@@ -280,12 +316,12 @@ impl Property for C12 {
         v
     }
     fn rule(&self) -> &'static str {
-        "one real node (serving or read-only) with 2..20 stubs (0..2 of them configured as routers) whose accepted answers also name the node's own id, router addresses, duplicates and up to 40 unreachable addresses; 0..3 searches; an adversary sends 5..60 datagrams from unknown addresses while the node bootstraps / idles / searches: the four query kinds, responses with ids of length 0..32 != 8, and 8-byte ids whose action prefix is >= 2^32 (never handed out), some before any request was sent, each naming up to 8 further adversary identities and carrying unique values; message faults (drop, delay, duplicate, reorder, send errors, stalls) at swarm-drawn rates, plus a single-fault sweep; table dump and load_contacts sampled every 0.7..4.3 s. non-trivial = unsolicited datagrams were sent and the table held at least one node; distinct = distinct order digests"
+        "one real node (serving or read-only) with 2..20 stubs (0..2 of them configured as routers) whose accepted answers also name the node's own id, router addresses, duplicates and up to 40 unreachable addresses; 0..3 searches; an adversary sends 5..60 datagrams from unknown addresses while the node bootstraps / idles / searches: the four query kinds, responses with ids of length 0..32 != 8 (random, or derived from an id the node really used by appending or cutting bytes), and 8-byte ids whose action prefix is >= 2^32 (never handed out), some before any request was sent, each naming up to 8 further adversary identities and carrying unique values; message faults (drop, delay, duplicate, reorder, send errors, stalls) at swarm-drawn rates, plus a single-fault sweep; table dump and load_contacts sampled every 0.7..4.3 s. non-trivial = unsolicited datagrams were sent and the table held at least one node; distinct = distinct order digests"
     }
     fn assumptions(&self) -> Vec<&'static str> {
         vec!["in-flight corruption is off in this family: adversary identities are recognised by value in table dumps", "forged responses that reuse a low, guessable action prefix or a timed-out id of a live search are deliberately not asserted (the statement does not cover them)"]
     }
     fn required_reach(&self) -> Vec<&'static str> {
-        vec!["unsolicited_datagrams", "hearsay_admitted_as_questionable", "routers_configured", "more_than_8_contacts", "read_only_run", "search_ran"]
+        vec!["unsolicited_datagrams", "hearsay_admitted_as_questionable", "routers_configured", "more_than_8_contacts", "read_only_run", "search_ran", "wrong_length_id_derived_from_real_one"]
     }
 }
